@@ -343,3 +343,65 @@ def c17_options(eph: int, hsdir: bool, auth: int, stealth_auth: bool, private_ke
             return R('something-started-before-the-refusal')
     reached()
     return ''
+
+
+def _entry_points(entry, hsdir, private_key, single_hop, version, ctl):
+    """entry 0: the `onion:` string parser (TCPHiddenServiceEndpointParser.parseStreamServer); 1: TCPHiddenServiceEndpoint.system_tor;
+    2: .global_tor; 3: .private_tor.  Nothing may be started (no control connection, no Tor launch) when the combination is invalid"""
+    import txtorcon.controller as controller_mod
+    reactor = Reactor()
+    started = []
+
+    class FakeClientEndpoint(object):
+        def connect(self, factory):
+            started.append('control connection')
+            return defer.Deferred()
+    saved = (endpoints.get_global_tor_instance, controller_mod.launch, controller_mod.connect, endpoints.clientFromString)
+    endpoints.get_global_tor_instance = lambda *a, **kw: started.append('global tor') or defer.Deferred()
+    controller_mod.launch = lambda *a, **kw: started.append('launch') or defer.Deferred()
+    controller_mod.connect = lambda *a, **kw: started.append('connect') or defer.Deferred()
+    endpoints.clientFromString = lambda r, desc: FakeClientEndpoint()
+    valid = _valid(None, hsdir, 0, False, private_key, single_hop) and version in (None, 2, 3)
+    kw = dict(hidden_service_dir='/var/lib/tor/hs' if hsdir else None, private_key='ED25519-V3:c2VjcmV0' if private_key else None,
+              single_hop=True if single_hop else False, version=version)
+    try:
+        try:
+            if entry == 0:
+                from txtorcon.endpoints import TCPHiddenServiceEndpointParser
+                ep = TCPHiddenServiceEndpointParser().parseStreamServer(
+                    reactor, '80', controlPort='9051' if ctl else None, hiddenServiceDir=kw['hidden_service_dir'], privateKey=kw['private_key'],
+                    version=None if version is None else str(version), singleHop='true' if single_hop else None)
+            elif entry == 1:
+                ep = TCPHiddenServiceEndpoint.system_tor(reactor, FakeClientEndpoint(), 80, **kw)
+            elif entry == 2:
+                ep = TCPHiddenServiceEndpoint.global_tor(reactor, 80, **kw)
+            else:
+                ep = TCPHiddenServiceEndpoint.private_tor(reactor, 80, **kw)
+            refused = False
+        except (ValueError, RuntimeError):
+            refused = True
+    finally:
+        (endpoints.get_global_tor_instance, controller_mod.launch, controller_mod.connect, endpoints.clientFromString) = saved
+    if valid and refused:
+        return R('valid-combination-refused', 'entry %d %r', entry, kw)
+    if not valid:
+        if not refused:
+            return R('invalid-combination-accepted', 'entry %d %r', entry, kw)
+        if started or reactor.ports or reactor.tcpClients or reactor.unixClients:
+            return R('something-was-started-before-the-invalid-combination-was-refused', 'entry %d %r: %r', entry, kw, started)
+    reached()
+    return ''
+
+
+@cond(quick=dict(budget=100))
+def c17_entry_points(entry: int, hsdir: bool, private_key: bool, single_hop: bool, version: int, ctl: bool) -> str:
+    """the option combinations through the `onion:` string parser and the system_tor / global_tor / private_tor constructors:
+    an invalid one is refused before a control connection or a Tor launch is started"""
+    entry = api.pick(entry, 0, 3)
+    version = api.pick_from(version, (0, 2, 3, 4))
+    if entry != 0:
+        assume(not ctl)
+        assume(version != 4)      # (a version other than 2 / 3 is a bad value rather than a bad combination; only the string parser documents a check)
+    with api.no_tracing():
+        return _entry_points(entry, True if hsdir else False, True if private_key else False, True if single_hop else False,
+                             version or None, True if ctl else False)
